@@ -84,7 +84,7 @@ def _setup(n, zero, xlevel, sp, special=None):
     return w, u, C, levels, oracle, fact
 
 
-def _run1(ctx: Ctx, m, fn, n, mode, zero=frozenset(), xlevel=0.5, special=None, wlen=None, both=False, choices=()):
+def _run1(ctx: Ctx, m, fn, n, mode, zero=frozenset(), xlevel=0.5, special=None, wlen=None, both=False, choices=(), seq="list"):
     """Interpret deterministic_choice abstractly for one ordering class.  Returns ('value', v) | ('raise', class name),
     plus whether an argument list was changed."""
     import sympy as sp
@@ -108,8 +108,8 @@ def _run1(ctx: Ctx, m, fn, n, mode, zero=frozenset(), xlevel=0.5, special=None, 
     k = n if wlen is None else wlen
     ws = (w + [sp.Symbol(f"w{i}", nonnegative=True) for i in range(n, k)])[:k]
     cs = [sum(ws[:i + 1], sp.Integer(0)) for i in range(k)]
-    wl = A.AList([A.Num(x) for x in ws], "list")
-    cl = A.AList([A.Num(x) for x in cs], "list")
+    wl = A.AList([A.Num(x) for x in ws], seq)       # callers pass lists or tuples
+    cl = A.AList([A.Num(x) for x in cs], seq)
     snap = (list(pop.items), list(wl.items), list(cl.items))
     params = [a.arg for a in fn.args.args + fn.args.kwonlyargs]
     idp, popp = params[0], params[1]
@@ -206,6 +206,9 @@ def choice_semantics(ctx: Ctx):
                     ("too few weights", dict(mode="weights", wlen=n - 1), "ValueError"),
                     ("too many running totals", dict(mode="cum", wlen=n + 1), "ValueError"),
                     ("too few running totals", dict(mode="cum", wlen=n - 1), "ValueError"),
+                    ("too many weights, given as a tuple", dict(mode="weights", wlen=n + 1, seq="tuple"), "ValueError"),
+                    ("too many running totals, given as a tuple", dict(mode="cum", wlen=n + 1, seq="tuple"), "ValueError"),
+                    ("too few running totals, given as a tuple", dict(mode="cum", wlen=n - 1, seq="tuple"), "ValueError"),
                     ("total of zero", dict(mode="weights", zero=frozenset(range(n)), xlevel=0), "ValueError"),
                     ("NaN total", dict(mode="weights", special="nan"), "ValueError"),
                     ("infinite total", dict(mode="weights", special="inf"), "ValueError"),
